@@ -301,12 +301,14 @@ def copyValue (k : Kind) (src : List Char) : Outcome V :=
   | .string => .ok (.str src)
   | _ => .unmodelled
 
-def splitOnChar (c : Char) (s : List Char) : List (List Char) :=
-  go s []
-where
-  go : List Char → List Char → List (List Char)
-  | [], cur => [cur.reverse]
-  | x :: xs, cur => if x = c then cur.reverse :: go xs [] else go xs (x :: cur)
+/-- `strings.Split(s, sep)` for a one-character separator -/
+def splitOnChar (c : Char) : List Char → List (List Char)
+  | [] => [[]]
+  | x :: xs =>
+    if x = c then [] :: splitOnChar c xs
+    else match splitOnChar c xs with
+      | h :: t => (x :: h) :: t
+      | [] => [[x]]
 
 /-- `strings.SplitN(s, sep, 2)` for a one-character separator -/
 def splitN2 (c : Char) (s : List Char) : List (List Char) :=
